@@ -24,6 +24,16 @@ Oracle (written from the property statement; it never looks at rich's line arith
                             through Traceback.from_exception: every frame whose file is readable shows exactly one marked
                             row, numbered frame.lineno, whose text is linecache.getline(file, lineno)
 
+Input families (every clause above is judged on each of them alike):
+  * Syntax(code, lexer, ...) from a string, and Syntax.from_path(file, ...) from a file holding the same string under a
+    name whose extension is / is not a Pygments lexer alias, or has no extension ("for every source string, lexer
+    and option set": how the Syntax object was constructed is not a precondition) - input key `from_path=<ext>`;
+  * traceback modules that also hold the characters which are legal inside a line of Python but which some line
+    splitters (str.splitlines) take for line boundaries: form-feed "page break" lines, and VT / FS / GS / RS / NEL /
+    U+2028 / U+2029 inside a string literal or a comment.  A line of a file ends at "\n" and nowhere else (that is how
+    the interpreter numbers frame lines), so none of them moves the failing line - module parameters `page_breaks`,
+    `sep_string`, `sep_comment`.
+
 Stated preconditions: `dedent` is left off; source lines carry no trailing spaces (indistinguishable from padding);
 tabs only lead a line (str.expandtabs counts characters, not cells); line_range is read as 1-based positions in the
 source (the only reading under which start_line=1, the Traceback use, is consistent); with word_wrap the code width
@@ -77,7 +87,11 @@ START_LINES = (1, 1, 1, 2, 9, 98, 995)
 TAB_SIZES = (4, 4, 8, 2)
 KINDS = ("blank", "code", "tab", "wide", "long")
 DEFAULTS = {"lexer": "python", "theme": "monokai", "line_numbers": False, "start_line": 1, "line_range": None,
-            "highlight_lines": [], "word_wrap": False, "code_width": None, "indent_guides": False, "tab_size": 4, "width": 80}
+            "highlight_lines": [], "word_wrap": False, "code_width": None, "indent_guides": False, "tab_size": 4, "width": 80,
+            "from_path": None}
+# Syntax.from_path: file name extensions - Pygments lexer aliases, a known extension that is no alias ("txt"), an
+# unknown one, upper case, and none at all
+FP_EXTS = ("py", "js", "json", "c", "html", "txt", "c17unknown", "PY", "")
 
 _CODE = ["x{i} = {i}", "def f{i}(a, b):", "return {{'k{i}': [1, 2]}}", '<p class="c{i}">hi</p>', '{{"k{i}": [1, 2.5, null]}}',
          "# comment {i}", "    y{i} = x + 1", "print('q{i}')"]
@@ -127,6 +141,9 @@ _GUTTER_FIRST = _re.compile(r"^(❱ |  )( *)(\d+) ")
 _GUTTER = _re.compile(r"^(❱ |  ) *(\d+) $")
 
 
+_FP_DIR = None  # temporary directory of the running pool job (see _work)
+
+
 def nospace(s: str) -> str:
     return s.replace(" ", "")
 
@@ -138,12 +155,27 @@ def render_case(case: dict, color_system):
     from rich.syntax import Syntax
 
     console = Console(width=case["width"], file=io.StringIO(), color_system=color_system, legacy_windows=False, _environ={})
-    syntax = Syntax(
-        case["code"], case["lexer"], theme=case["theme"], line_numbers=case["line_numbers"], start_line=case["start_line"],
+    options = dict(
+        theme=case["theme"], line_numbers=case["line_numbers"], start_line=case["start_line"],
         line_range=tuple(case["line_range"]) if case["line_range"] else None,
         highlight_lines=set(case["highlight_lines"]), word_wrap=case["word_wrap"], code_width=case["code_width"],
         indent_guides=case["indent_guides"], tab_size=case["tab_size"],
     )
+    ext = case.get("from_path")
+    if ext is None:
+        syntax = Syntax(case["code"], case["lexer"], **options)
+    else:
+        # the same source string, handed over as a file: the lexer comes from the file name (case["lexer"] is unused)
+        import contextlib
+        import tempfile
+
+        # inside a pool job the job's own temporary directory is used (removed when the job ends; the same path is
+        # written again and again with different contents), otherwise one that lives for this call only
+        with (contextlib.nullcontext(_FP_DIR) if _FP_DIR else tempfile.TemporaryDirectory(prefix="c17fp_")) as tmp:
+            path = os.path.join(tmp, "source" + ("." + ext if ext else ""))
+            with open(path, "w", encoding="utf-8", newline="\n") as fh:
+                fh.write(case["code"])
+            syntax = Syntax.from_path(path, **options)  # reads the file here
     console.print(syntax)
     return console.file.getvalue()
 
@@ -359,9 +391,9 @@ def check_case(case: dict):
 def case_key(case: dict) -> str:
     parts = [repr(case["code"])]
     for k in ("lexer", "theme", "line_numbers", "start_line", "line_range", "highlight_lines", "word_wrap", "code_width",
-              "indent_guides", "tab_size", "width"):
-        if case[k] != DEFAULTS[k]:
-            parts.append(f"{k}={case[k]}")
+              "indent_guides", "tab_size", "width", "from_path"):
+        if case.get(k) != DEFAULTS[k]:
+            parts.append(f"{k}={case.get(k)}")
     return "|".join(parts)
 
 
@@ -379,8 +411,8 @@ def shrink_case(case: dict, clause: str, budget: int = 80):
     case = dict(case)
     # options to their defaults
     for k in ("theme", "highlight_lines", "indent_guides", "word_wrap", "code_width", "tab_size", "width", "lexer", "start_line",
-              "line_range", "line_numbers"):
-        if case[k] != DEFAULTS[k] and steps[0] < budget:
+              "line_range", "line_numbers", "from_path"):
+        if case.get(k) != DEFAULTS[k] and steps[0] < budget:
             c2 = dict(case)
             c2[k] = DEFAULTS[k]
             if fails(c2):
@@ -501,7 +533,23 @@ def systematic_shapes():
 # ------------------------------------------------------------------------------------------------ tracebacks
 MODULE_DEFAULTS = {"lead_blank": 0, "lead_comments": 0, "blank_after_comments": 0, "filler": 0, "tab_indent": False,
                    "wide": False, "blank_before_raise": False, "long_line": False, "unreachable": 0, "gap": 1,
-                   "via_string": False, "gap2": 1, "tail": 0, "final_newline": True, "extra_trailing_blank": 0}
+                   "via_string": False, "gap2": 1, "tail": 0, "final_newline": True, "extra_trailing_blank": 0,
+                   "page_breaks": 0, "sep_string": "", "sep_comment": ""}
+# characters that may stand inside a line of Python source (form feed is white space to the tokenizer, the others are
+# ordinary characters of a string literal or a comment) but that str.splitlines() - not the interpreter, which numbers
+# lines by "\n" - treats as line boundaries
+SEPARATORS = ("\x0c", "\x0b", "\x1c", "\x1d", "\x1e", "\x85", "\u2028", "\u2029")
+
+
+def random_separator_params(rs) -> dict:
+    """drawn from a generator of their own, so that the other module parameters of a case are what they were"""
+    if rs.random() >= 0.35:
+        return {}
+
+    def some():
+        return "".join(rs.sample(SEPARATORS, rs.choice([1, 1, 2, 3])))
+    return {"page_breaks": rs.choice([0, 1, 1, 2, 3]), "sep_string": some() if rs.random() < 0.5 else "",
+            "sep_comment": some() if rs.random() < 0.5 else ""}
 
 
 def random_module_params(rng, tier: str) -> dict:
@@ -528,14 +576,25 @@ def systematic_module_params():
         out.append(dict(MODULE_DEFAULTS, lead_blank=lead, tab_indent=True, wide=True))
         out.append(dict(MODULE_DEFAULTS, lead_blank=lead, extra_trailing_blank=2, tail=2))
         out.append(dict(MODULE_DEFAULTS, lead_blank=lead, via_string=True))
+    # form-feed page breaks and the other characters that only str.splitlines() takes for line ends
+    out.append(dict(MODULE_DEFAULTS, page_breaks=1))
+    out.append(dict(MODULE_DEFAULTS, page_breaks=2, lead_comments=1))
+    out.append(dict(MODULE_DEFAULTS, page_breaks=3, lead_blank=1))
+    out.append(dict(MODULE_DEFAULTS, sep_string="\u2028"))
+    out.append(dict(MODULE_DEFAULTS, sep_comment="\u2029", lead_blank=2))
+    out.append(dict(MODULE_DEFAULTS, sep_string="\x85\x1c", sep_comment="\x0b\x1d\x1e"))
+    out.append(dict(MODULE_DEFAULTS, page_breaks=2, sep_string="".join(SEPARATORS), sep_comment="".join(SEPARATORS), filler=30,
+                    final_newline=False))
     return out
 
 
 def gen_module(params: dict, name: str, callee_name=None) -> str:
     """module source: inner() raises (or calls into the other file), middle() calls inner(), the last statement calls
     middle(); every line is distinct so that a wrong line is recognisable"""
-    P = params
+    P = dict(MODULE_DEFAULTS, **params)
     lines = []
+    if P["page_breaks"] >= 3:
+        lines.append("\x0c")  # the file starts with a page break
     lines += [""] * P["lead_blank"]
     for i in range(P["lead_comments"]):
         lines.append(f"# leading comment {i} of {name}")
@@ -544,8 +603,14 @@ def gen_module(params: dict, name: str, callee_name=None) -> str:
         lines.append(f"filler_{k} = {k}  # line {len(lines) + 1}")
     ind = "\t" if P["tab_indent"] else "    "
     wide = P["wide"]
+    if P["sep_string"]:
+        lines.append("SEPARATED = 'a" + "".join(c + "bcdefghi"[k % 8] for k, c in enumerate(P["sep_string"])) + "'  # one line")
+    if P["page_breaks"] >= 1:
+        lines.append("\x0c")  # a page break line (emacs / GNU style, as in many stdlib modules)
     lines.append("def inner(x):")
     lines.append(f"{ind}y = x + 1" + ("  # 日本語のコメント" if wide else ""))
+    if P["sep_comment"]:
+        lines.append(f"{ind}# one comment" + "".join(c + " still the same line" for c in P["sep_comment"]))
     if P["blank_before_raise"]:
         lines.append("")
     if P["long_line"]:
@@ -557,6 +622,8 @@ def gen_module(params: dict, name: str, callee_name=None) -> str:
     for k in range(P["unreachable"]):
         lines.append(f"{ind}unreachable_{k} = {k}")
     lines += [""] * P["gap"]
+    if P["page_breaks"] >= 2:
+        lines.append("\x0c")
     lines.append("def middle(x):")
     lines.append(f"{ind}if x:")
     if P["via_string"]:
@@ -575,7 +642,7 @@ def gen_module(params: dict, name: str, callee_name=None) -> str:
 
 
 def params_key(P: dict) -> str:
-    return ",".join(f"{k}={v}" for k, v in P.items() if v != MODULE_DEFAULTS[k]) or "plain"
+    return ",".join(f"{k}={ascii(v) if isinstance(v, str) else v}" for k, v in P.items() if v != MODULE_DEFAULTS[k]) or "plain"
 
 
 _RUNNER = """import sys
@@ -623,6 +690,10 @@ def traceback_case(seed: int, idx: int, tier: str):
             opts = {"width": rng.choice([100, 100, 120, None]), "extra_lines": rng.choice([3, 3, 0, 1, 6]),
                     "word_wrap": rng.random() < 0.25, "indent_guides": rng.random() < 0.7,
                     "theme": rng.choice([None, "monokai", "ansi_light"])}
+            rs = random.Random(f"c17sep:{seed}:{idx}")
+            pa = dict(pa, **random_separator_params(rs))
+            if two:
+                pb = dict(pb, **random_separator_params(rs))
         paths = [os.path.join(tmp, "mod_a.py")] + ([os.path.join(tmp, "mod_b.py")] if two else [])
         # one case in five: the code objects carry file names RELATIVE to the directory the process was in when rich
         # was imported (runpy.run_path("plugins/x.py"), exec(compile(src, "hooks.py", "exec")), relative sys.path
@@ -722,7 +793,7 @@ def traceback_case(seed: int, idx: int, tier: str):
             counts["c17.traceback_line"] += 1
             try:  # the oracle reads the file itself (no cache of any kind)
                 with open(fname, "r", encoding="utf-8") as _fh:
-                    _src_lines = _fh.read().split("\n")
+                    _src_lines = _fh.read().split("\n")  # a line ends at "\n" and nowhere else
             except OSError:
                 _src_lines = []
             want = (_src_lines[lineno - 1] if 0 < lineno <= len(_src_lines) else "").expandtabs(4).rstrip()
@@ -760,6 +831,20 @@ def _signature(f) -> str:
 
 
 def _work(args):
+    import shutil
+    import tempfile
+
+    global _FP_DIR
+    _FP_DIR = tempfile.mkdtemp(prefix="c17fp_%d_" % os.getpid()) if args[2] == "fp" else None
+    try:
+        return _work_job(args)
+    finally:
+        if _FP_DIR:
+            shutil.rmtree(_FP_DIR, ignore_errors=True)
+        _FP_DIR = None
+
+
+def _work_job(args):
     import hashlib
     import random
 
@@ -769,7 +854,7 @@ def _work(args):
     evaluations = 0
     distinct = set()
     samples = []
-    shapes = systematic_shapes() if kind == "sys" else None
+    shapes = systematic_shapes() if kind in ("sys", "fp") else None
     per_shape = 6 if tier == "thorough" else 3
     for idx in range(start, stop):
         rng = random.Random(f"c17:{seed}:{kind}:{idx}")
@@ -789,7 +874,15 @@ def _work(args):
             if idx % 50 == 7 and len(samples) < 1:
                 samples.append(key)
             continue
-        case = gen_case(rng, idx, shapes[idx // per_shape] if kind == "sys" else None)
+        if kind == "fp":
+            # the from_path family: every systematic shape `fp_reps` times, then random sources; the extension cycles
+            # (systematic part) or is drawn (random part) from FP_EXTS
+            n_fp_sys = len(shapes) * (3 if tier == "thorough" else 1)
+            case = gen_case(rng, idx, shapes[idx % len(shapes)] if idx < n_fp_sys else None)
+            case["lexer"] = DEFAULTS["lexer"]
+            case["from_path"] = FP_EXTS[(idx + idx // len(shapes)) % len(FP_EXTS)] if idx < n_fp_sys else rng.choice(FP_EXTS)
+        else:
+            case = gen_case(rng, idx, shapes[idx // per_shape] if kind == "sys" else None)
         evaluations += 1
         fails, cnt = check_case(case)
         for k, v in cnt.items():
@@ -835,6 +928,7 @@ def worker_main():
     n_sys = n_shapes * per_shape
     n_rnd = 100_000 if thorough else 6_000
     n_tb = 2_000 if thorough else 160
+    n_fp = n_shapes * (3 if thorough else 1) + (20_000 if thorough else 1_200)
     nproc = min(16, os.cpu_count() or 1)
     jobs = []
 
@@ -846,12 +940,19 @@ def worker_main():
     split("tb", n_tb, nproc * 2)
     split("rnd", n_rnd, nproc * 4)
     split("sys", n_sys, nproc * 2)
+    split("fp", n_fp, nproc * 2)
     counts = {c: 0 for c in CLAUSES}
     fails = {c: [] for c in CLAUSES}
     evaluations = 0
     distinct = set()
     samples = []
     cells("x")
+    try:  # Pygments loads every lexer module on its first look-up by file name: once here, not once per pool process
+        from pygments.lexers import guess_lexer_for_filename
+
+        guess_lexer_for_filename("source.c17unknown", "")
+    except Exception:
+        pass
     ctx = mp.get_context("fork")
     with ctx.Pool(nproc) as pool:
         for c, f, ev, dist, smp in pool.imap_unordered(_work, jobs, chunksize=1):
@@ -883,7 +984,7 @@ def worker_main():
     result = {
         "evaluations": evaluations,
         "distinct_nontrivial": len(distinct),
-        "rule": "one case = (source, lexer, theme, line_numbers, start_line, line_range, highlight_lines, word_wrap, code_width, "
+        "rule": "one case = (source, lexer or file-name extension for Syntax.from_path, theme, line_numbers, start_line, line_range, highlight_lines, word_wrap, code_width, "
                 "indent_guides, tab_size, console width), each rendered without colour and in truecolor; or one generated "
                 "module set raising at a chosen line rendered through Traceback; distinct by the full case; non-trivial = "
                 "the source has a non-blank line / the traceback has frames",
@@ -891,8 +992,11 @@ def worker_main():
                  f"leading 0..4 / trailing 0..2 blank-line families, {n_rnd} random) x lexers {list(LEXERS)} x themes {list(THEMES)} "
                  f"x start_line {sorted(set(START_LINES))} x line_range (inside, single, straddling either end, beyond, whole+) "
                  f"x highlight_lines x word_wrap x code_width [None,20,40,100] x indent_guides x tab_size {sorted(set(TAB_SIZES))} "
-                 f"x widths {list(WIDTHS)}; {n_tb} generated traceback cases (1-2 files, up to "
-                 f"{1500 if thorough else 400} filler lines, 0..5 leading blank lines, tabs, wide characters, <string> frames)",
+                 f"x widths {list(WIDTHS)}; the same sources and options through Syntax.from_path with the extensions "
+                 f"{list(FP_EXTS)} ({n_fp} cases: every systematic shape, then random); {n_tb} generated traceback cases (1-2 "
+                 f"files, up to {1500 if thorough else 400} filler lines, 0..5 leading blank lines, tabs, wide characters, "
+                 f"<string> frames, 0..3 form-feed page-break lines, the characters {[ascii(c)[1:-1] for c in SEPARATORS]} "
+                 f"inside a string literal / a comment above the failing lines)",
         "samples": sorted(samples)[:5],
         "clauses": counts,
         "failures": failures,
